@@ -48,6 +48,7 @@ fn main() {
         "C05" => props::c03::run_c05(&report, &tier),
         "C06" => props::c06::run(&report, &tier),
         "C07" => props::c07::run(&report, &tier),
+        "C09" => props::c09::run(&report, &tier),
         "C10" => props::c10::run(&report, &tier),
         "C11" => props::c11::run(&report, &tier),
         "C12" => props::c12::run(&report, &tier),
@@ -58,6 +59,10 @@ fn main() {
         "C14" => props::c14::run(&report, &tier),
         "C15" => props::c15::run(&report, &tier),
         "C16" => props::c16::run(&report, &tier),
+        "lab4" => {
+            props::lab4();
+            return;
+        }
         "lab3" => {
             props::lab3();
             return;
